@@ -225,6 +225,19 @@ def equal_reconstruction(a, b):
 _vals_cache = {}
 
 
+def contains_dst_variant(v, depth=0):
+    """a pytz DstTzInfo that is not the zone's default instance (the tzinfo a localized datetime carries)"""
+    if isinstance(v, pytz.tzinfo.DstTzInfo):
+        return not (v.zone and pytz.timezone(v.zone) == v)
+    if isinstance(v, (datetime.datetime, datetime.time)):
+        return v.tzinfo is not None and contains_dst_variant(v.tzinfo)
+    if depth < 6 and isinstance(v, (list, tuple, collections.deque)):
+        return any(contains_dst_variant(x, depth + 1) for x in v)
+    if depth < 6 and isinstance(v, dict):
+        return any(contains_dst_variant(x, depth + 1) for x in v.values())
+    return False
+
+
 def std_chunk(args):
     seed_, cases_idx = args
     if seed_ not in _vals_cache:
@@ -261,6 +274,7 @@ def std_chunk(args):
                     break
         if len(fails) < 3:
             bad = None
+            kind_override = None
             if warned:
                 bad = 'a bundled printer failed internally (repr fallback warning)'
             else:
@@ -276,6 +290,8 @@ def std_chunk(args):
                         break
                     if not equal_reconstruction(got, value):
                         bad = 'evaluates to a different object: %r' % (got,)
+                        if contains_dst_variant(value):
+                            kind_override = 'pytz-dst-variant-not-reconstructible'
                         break
                     try:
                         a = ast_of(text)
@@ -288,7 +304,7 @@ def std_chunk(args):
                         bad = 'not an expression'
                         break
             if bad:
-                fails.append({'kind': 'stdlib-printer', 'why': bad, 'value': repr(value)[:300], 'type': type(top).__name__})
+                fails.append({'kind': kind_override or 'stdlib-printer', 'why': bad, 'value': repr(value)[:300], 'type': type(top).__name__})
     return n, nt, mism, fails
 
 
